@@ -6,6 +6,23 @@ lists) + correspondence on the ops of Drv/C01.lean.
 
 All inputs are EPW texts built here from plain numbers (a JSON `spec` regenerates the text, so a
 stored replay input is self-contained) or the shipped files under tests/assets/epw.
+
+Round 3 (histories, failure paths, process order, rare values; section "round 3" below):
+  * op `objhist`: an operation history on ONE object (lazy `EPW(path)`, `from_file_string`, `from_dict`):
+    reads in any order and repeated, every public setter (location + its attributes, three design
+    dictionaries, three week dictionaries, ground temperatures, comments, daylight saving, collection
+    values), unit conversions, refused operations (arguments the validation rejects, field number outside
+    the file, Wea hour outside the year, write of incomplete data, from_dict with missing collections).
+    After every step the object is compared with the state the user established (file + accepted setters
+    + unit system), every output (text, written file, Wea incl. its header, MOS incl. its header lines,
+    dictionary -> from_dict) with what that state determines; a refused operation leaves everything as before.
+    The same histories run on the Lean object state machine (driver op `obj`, Model/EpwObj.lean) with the
+    header slots as ids (correspondence, step by step).
+  * op `locdict`: location values that are zero / falsy / on a documented bound through setter, to_dict ->
+    from_dict (own dictionary and a hand-written one), text, Wea header.
+  * the list of producers and their consumers (which op exercises which) heads the round-3 section.
+  * op `order`: a slice of the self-checking cases in 3-4 FRESH interpreters, each in another order (rare
+    classes first: leap year, failing calls, IP; plain first; shuffled); replay input {"order": [[op, input], ...]}.
 """
 import atexit
 import copy
@@ -22,7 +39,8 @@ from harness.core import err_name, run_oracle_cases
 PROP = 'C01'
 PROOF_MODULES = ['Ladybug.Props.C01']
 GREP_MODULES = ['Ladybug.Model.Epw', 'Ladybug.Gen.EpwFields', 'Ladybug.Gen.DesignDayTables',
-                'Ladybug.Proofs.C01Lemmas', 'Ladybug.Proofs.C01Header', 'Ladybug.Drv.C01', 'Ladybug.Model.Cal', 'Ladybug.Py']
+                'Ladybug.Proofs.C01Lemmas', 'Ladybug.Proofs.C01Header',
+                'Ladybug.Model.EpwObj', 'Ladybug.Proofs.C01Obj', 'Ladybug.Drv.C01', 'Ladybug.Model.Cal', 'Ladybug.Py']
 RULE = ('correspondence: full-size EPW texts (shipped files; synthetic files whose cells are distinct ids, '
         'canonical numbers or non-canonical spellings; 8760 and 8784 rows; 30..37 columns; blank lines; '
         'leap field Yes/No/absent) through import (columns after rotation) and import+write (rows, state '
@@ -35,7 +53,12 @@ RULE = ('correspondence: full-size EPW texts (shipped files; synthetic files who
         'statement evaluated on the real classes (read/write/read equality, write fixed point, row-for-row '
         'reproduction of canonical files, position and date-time of every cell from the file\'s own stamps, '
         'exports, snapshots before/after every export; header-only read/regenerate/read on generated header blocks).  A case is non-trivial when the implementation '
-        'returns a value (not a rejection); distinct = distinct (op, input)')
+        'returns a value (not a rejection); distinct = distinct (op, input).  Round 3: generated operation histories on '
+        'one object (reads ~50 %, accepted setters / unit conversions ~30 %, refused operations ~20 %; read-set-read '
+        'patterns around every setter; lazy / string / dictionary constructors; leap and non-leap files) compared step by '
+        'step with the Lean object state machine (op obj) and with the state the user established (op objhist); '
+        'location values zero / on a bound through every route (op locdict); the same cases in fresh interpreters '
+        'in 3-4 different orders (op order)')
 TRUSTED_BASE = [
     'translator tools/extract/epw_fields.py: copies EPWFields._fields (value type, unit, missing) and derives '
     'point_in_time of each field\'s data type from datatype/*.py (compared with the live classes by op flags)',
@@ -48,6 +71,11 @@ TRUSTED_BASE = [
     'histories compare SI-normalised values rounded to the ids',
     'failing write is injected by shortening the private list `_values` of one collection (no public API '
     'produces a wrong-length annual collection)',
+    'object state machine (Model/EpwObj.lean): the file is given already parsed (theorem C01_obj_load_bridge ties the '
+    'loading step to importBody); header slots are opaque values, the validity of a setter argument is an input of the '
+    'model (decided by the harness from the plain values of the argument); comments_1/2 and daylight_savings_* are plain '
+    'attributes and are assigned only after a header read (assigned on a lazy object they are overwritten by the '
+    'header load: outside the model); slot contents are read from the private attributes for the fingerprint',
 ]
 ASSUMPTIONS = ['CPython datetime arithmetic is the reference calendar for the oracle',
                'well-formed EPW text: 8 header lines, 8760/8784 data rows of >= 35 cells, final newline']
@@ -443,6 +471,20 @@ def _col_fp(ids):
     return _hash_list([len(ids), sum(ids), ids[0] if ids else 0, ids[-1] if ids else 0])
 
 
+def _col_fp_of(e, k):
+    """`_col_fp(_si_ids(e, k))`, without the per-value loop when the column is numeric and in the EPW unit."""
+    from ladybug.epw import EPWFields
+    c = e._data[k]
+    vals = c._values
+    if VT[k] != 'str' and c.header.unit == EPWFields.field_by_number(k).unit and vals and \
+            not isinstance(vals[0], str):
+        try:
+            return _hash_list([len(vals), int(round(sum(vals))), int(round(vals[0])), int(round(vals[-1]))])
+        except (TypeError, ValueError, OverflowError):
+            pass
+    return _col_fp(_si_ids(e, k))
+
+
 def _units_consistent(e):
     from ladybug.epw import EPWFields
     for k in range(e._num_of_fields):
@@ -459,7 +501,7 @@ def _fp(e):
     lp = e._is_leap_year
     cols = 7
     if e.is_data_loaded:
-        cols = _hash_list([_col_fp(_si_ids(e, k)) for k in range(e._num_of_fields)])
+        cols = _hash_list([_col_fp_of(e, k) for k in range(e._num_of_fields)])
         if not _units_consistent(e):
             cols = 'units!'
     return 'h%dd%di%dl%sn%dc%s' % (e.is_header_loaded, e.is_data_loaded, e.is_ip,
@@ -744,7 +786,7 @@ def correspondence(ctx):
     if not ctx.quick:
         hist += [({'leap': '', 'mode': 'ids', 'seed': 2, 'nrows': 8784}, ['H', 'W', 'E', 'D']),
                  ({'leap': 'Yes', 'mode': 'ids', 'seed': 3}, ['I', 'F14', 'B', 'W', 'M'])]
-    for _ in range(ctx.n(3, 25)):
+    for _ in range(ctx.n(1, 25)):
         lp = rng.choice(['No', 'No', 'Yes', ''])
         spec = {'leap': lp, 'mode': 'ids', 'seed': rng.randrange(1000)}
         r = rng.random()
@@ -774,6 +816,7 @@ def correspondence(ctx):
         if mo != io:
             ctx.disagree('hist', {'spec': spec, 'ops': ops}, mo, io)
     ctx.sample({'op': 'hist', 'request': req, 'model': mo})
+    _corr_objhist(ctx)
 
 
 # ---------------------------------------------------------------------------------------------
@@ -856,6 +899,8 @@ def _canonical_tokens(tokens):
 
 def check_case(op, inp):
     from ladybug.epw import EPW, EPWFields
+    if op in _R3_OPS:
+        return _R3_OPS[op](inp)
     if op == 'flags':
         k = inp['field']
         got = EPWFields.field_by_number(k).name.point_in_time
@@ -1264,6 +1309,1209 @@ def _priv_diff(a, b, tol):
     return None
 
 
+# ---------------------------------------------------------------------------------------------
+# round 3: operation histories on ONE object, refused operations, process order, rare header values
+#
+# Producers and their consumers (every consumer is exercised by an op below; a change that is kept
+# consistent between a producer and ONE consumer shows in the others):
+#   EPWFields point_in_time flags -> _import_body (values/field after load), to_file_string / write / save
+#       (row position), from_missing_values stamps (op missing), to_wea (index of fields 14/15),
+#       to_mos (index of fields 6..), to_dict -> from_dict (values as stored)
+#   EPW.header                   -> to_file_string / write / save (first 8 lines), to_mos ('#' lines),
+#       header-only re-read (hdr_roundtrip), full re-read (final step of objhist)
+#   EPW.location / Location      -> header line 1, _get_wea_header (5 lines), to_dict['location'] ->
+#       Location.from_dict -> EPW.from_dict -> header (op locdict: zero / bound / empty values)
+#   _is_leap_year                -> header line 5, row count of write, AnalysisPeriod of the collections,
+#       to_wea / to_mos line count, to_dict['is_leap_year']
+#   _is_ip / convert_to_ip / si  -> units of the 35 collections, to_file_string / to_wea (SI always, object
+#       restored), to_dict['is_ip'] -> from_dict
+#   header slots (design dicts, weeks, ground temps, dst, comments) -> header lines 2..7, to_dict -> from_dict
+
+
+R3_HOT = 'Summer - Week Nearest Max Temperature For Period'
+R3_COLD = 'Winter - Week Nearest Min Temperature For Period'
+R3_TYP = 'Spring - Week Nearest Average Temperature For Period'
+_BASE = {}
+
+
+def _r3_text(spec):
+    return synth_text(spec) if isinstance(spec, dict) else shipped_text(spec)
+
+
+def _baseline(spec):
+    """Observables of FRESH objects of the text (one read each), cached per text."""
+    from ladybug.epw import EPW
+    key = json.dumps(spec, sort_keys=True)
+    if key not in _BASE:
+        if len(_BASE) >= 3:
+            _BASE.clear()
+        text = _r3_text(spec)
+        e = EPW.from_file_string(text)
+        si = _snap(e)
+        rows = [r.split(',') for r in e.to_file_string().split('\n')[8:-1]]
+        e2 = EPW.from_file_string(text)
+        e2.convert_to_ip()
+        _BASE[key] = {'text': text, 'si': si, 'ip': _snap(e2), 'rows': rows, 'rows_joined': [','.join(r) for r in rows],
+                      'hdr': [l.strip() for l in text.split('\n')[:8]]}
+    return _BASE[key]
+
+
+def _design_keys():
+    from ladybug.designday import DesignDay
+    return (list(DesignDay.HEATING_KEYS), list(DesignDay.COOLING_KEYS) + ['WBmax'], list(DesignDay.EXTREME_KEYS))
+
+
+def _setter_arg(op):
+    """Argument object of a setter op, from the plain values of the op (None = not a setter)."""
+    from ladybug.location import Location
+    from ladybug.analysisperiod import AnalysisPeriod
+    from ladybug.header import Header
+    from ladybug.datacollection import MonthlyCollection
+    from ladybug.datatype.temperature import GroundTemperature
+    name = op[0]
+    if name == 'set_loc':
+        a = op[1]
+        return Location(a['city'], a['state'], a['country'], a['lat'], a['lon'], a['tz'], a['elev'], a['station'],
+                        a['source'])
+    if name == 'set_design':
+        which, kind, tag = op[1], op[2], op[3]
+        if kind == 'notdict':
+            return ['x']
+        keys = _design_keys()[which]
+        d = {} if kind == 'empty' else {k: '%s%d_%d' % ('hce'[which], tag, i) for i, k in enumerate(keys)}
+        if kind == 'bad':
+            del d[keys[0]]
+        return d
+    if name == 'set_weeks':
+        which, kind, m, dd = op[1], op[2], op[3], op[4]
+        if kind == 'notdict':
+            return 7
+        if kind == 'empty':
+            return {}
+        st = datetime(2017, m, dd)
+        en = st + timedelta(days=2 if kind == 'bad' else 6)
+        nm = [R3_HOT, R3_COLD, R3_TYP][which]
+        return {nm: AnalysisPeriod(st.month, st.day, 0, en.month, en.day, 23)}
+    if name == 'set_ground':
+        kind, tag = op[1], op[2]
+        if kind == 'notdict':
+            return [1]
+        if kind == 'empty':
+            return {}
+        if kind == 'bad':
+            return {0.5: 'x'}
+        out = {}
+        for j, depth in enumerate([0.5, 2.0][:1 + tag % 2]):
+            hd = Header(GroundTemperature(), 'C', AnalysisPeriod(),
+                        {'soil conductivity': '1.%d' % (tag % 10), 'soil density': '', 'soil specific heat': '0'})
+            out[depth] = MonthlyCollection(hd, [float(tag % 7 + i + j) + 0.25 for i in range(12)], list(range(12)))
+        return out
+    return None
+
+
+_SETTER_ATTR = {'set_loc': 'location', 'set_ground': 'monthly_ground_temperature'}
+_DES_ATTR = ['heating_design_condition_dictionary', 'cooling_design_condition_dictionary',
+             'extreme_design_condition_dictionary']
+_WEEK_ATTR = ['extreme_hot_weeks', 'extreme_cold_weeks', 'typical_weeks']
+
+
+def _apply_header_setter(e, op):
+    """Perform a header-slot setter on `e` (raises what the library raises)."""
+    name = op[0]
+    if name == 'set_loc_bad':
+        e.location = 'Chicago'
+    elif name == 'set_loc' or name == 'set_ground':
+        setattr(e, _SETTER_ATTR[name], _setter_arg(op))
+    elif name == 'set_design':
+        setattr(e, _DES_ATTR[op[1]], _setter_arg(op))
+    elif name == 'set_weeks':
+        setattr(e, _WEEK_ATTR[op[1]], _setter_arg(op))
+    elif name == 'set_comments':
+        e.location                       # plain attributes: assigned on an object whose header is read
+        setattr(e, 'comments_%d' % op[1], op[2])
+    elif name == 'set_dst':
+        e.location
+        e.daylight_savings_start, e.daylight_savings_end = op[1], op[2]
+    elif name == 'loc_attr':
+        setattr(e.location, op[1], op[2])
+    else:
+        raise ValueError('not a header setter: %r' % (op,))
+
+
+def _setter_valid(op):
+    """Does the documented validation accept the argument?  (decided from the plain values of the op)"""
+    name = op[0]
+    if name == 'set_loc_bad':
+        return False
+    if name in ('set_design', 'set_weeks'):
+        return op[2] in ('full', 'ok', 'empty')
+    if name == 'set_ground':
+        return op[1] in ('ok', 'empty')
+    if name == 'loc_attr':
+        lo, hi = {'latitude': (-90, 90), 'longitude': (-180, 180), 'time_zone': (-12, 14),
+                  'elevation': (-1e9, 1e9)}[op[1]]
+        return op[2] is not None and lo <= op[2] <= hi
+    return True
+
+
+SLOT_NAMES = ['location', 'heating_design_condition_dictionary', 'cooling_design_condition_dictionary',
+              'extreme_design_condition_dictionary', 'extreme_hot_weeks', 'extreme_cold_weeks', 'typical_weeks',
+              'monthly_ground_temperature', 'daylight_savings', 'comments_1', 'comments_2']
+HEADER_SETTERS = ('set_loc', 'set_loc_bad', 'set_design', 'set_weeks', 'set_ground', 'set_comments', 'set_dst',
+                  'loc_attr')
+
+
+def _twin_header(base, setters, leap):
+    """Header lines of a FRESH header-only object of the same file on which only the accepted setters were
+    performed, in their order (the state the user established)."""
+    e, p = _header_only_epw(base['hdr'])
+    try:
+        for op in setters:
+            _apply_header_setter(e, op)
+        lines = [l.rstrip('\n') for l in e.header]
+        loc = e.location
+        loc_t = (loc.city, loc.state, loc.country, loc.source, loc.station_id, loc.latitude, loc.longitude,
+                 loc.time_zone, loc.elevation)
+    finally:
+        os.remove(p)
+    t = lines[4].split(',')
+    t[1] = 'Yes' if leap else 'No'       # a file without the leap field decides it when the body is read
+    lines[4] = ','.join(t)
+    return lines, loc_t
+
+
+def _loc_line_same(a, b):
+    ta, tb = a.split(','), b.split(',')
+    if len(ta) != len(tb) or ta[:6] != tb[:6]:
+        return False
+    try:
+        return [float(x) for x in ta[6:]] == [float(x) for x in tb[6:]]
+    except ValueError:
+        return ta == tb
+
+
+def _hdr_diff(got, want):
+    got = [l.rstrip('\n') for l in got]
+    if len(got) != len(want):
+        return 'header has %d lines (%d expected)' % (len(got), len(want))
+    for i, (g, w) in enumerate(zip(got, want)):
+        if g != w and not (i == 0 and _loc_line_same(g, w)):
+            return 'header line %d is %s, expected %s' % (i, _short(g), _short(w))
+    return None
+
+
+def _new_values(k, tag, n):
+    if VT[k] == 'int':
+        return [(tag * 7 + i * 3) % 1000 for i in range(n)]
+    return [((tag * 13 + i * 7) % 4000) / 10.0 - 50.0 for i in range(n)]
+
+
+def _to_unit(c, vals, want, have):
+    return list(vals) if want == have else list(c.header.data_type.to_unit(list(vals), want, have))
+
+
+class _Expect(object):
+    """The state the user has established: file + accepted setters + unit system."""
+
+    def __init__(self, base):
+        self.base = base
+        self.leap = base['si']['leap']
+        self.n = _n_hours(self.leap)
+        self.nf = len(base['si']['values'])
+        self.ip = False
+        self.ever_ip = False
+        self.setters = []
+        self.si_vals = {}            # field -> SI values set by the user
+        self.loc_plain = None        # plain values of the location the user set last
+        self._hdr = None
+        self.cur = None              # content of the 11 header slots: the file's, then what accepted setters put there
+
+    def header(self):
+        if self._hdr is None:
+            self._hdr = _twin_header(self.base, self.setters, self.leap)
+        return self._hdr
+
+    def slots(self):
+        if self.cur is None:
+            twin, p = _header_only_epw(self.base['hdr'])
+            try:
+                twin.location
+                self.cur = _slot_contents(twin)
+            finally:
+                os.remove(p)
+        return self.cur
+
+    def accept(self, op):
+        cur = self.slots()
+        slot, content = _slot_of_op(op, cur)
+        cur[slot] = content
+        self.setters.append(op)
+        self._hdr = None
+        if op[0] == 'set_loc':
+            self.loc_plain = dict(op[1])
+        elif op[0] == 'loc_attr' and self.loc_plain is not None:
+            self.loc_plain[{'latitude': 'lat', 'longitude': 'lon', 'time_zone': 'tz', 'elevation': 'elev'}[op[1]]] = op[2]
+
+    def tol(self):
+        return 1e-9 if self.ever_ip else 0.0
+
+    def si_col(self, k):
+        return self.si_vals[k] if k in self.si_vals else self.base['si']['values'][k]
+
+    def check_values(self, e, fields=None):
+        """Every field of the object against the established state (None | text)."""
+        from ladybug.epw import EPWFields
+        si_units, ip_units = self.base['si']['units'], self.base['ip']['units']
+        if e.is_ip != self.ip:
+            return 'is_ip is %s' % e.is_ip
+        if e._num_of_fields != self.nf:
+            return 'number of fields %d' % e._num_of_fields
+        for k in (range(self.nf) if fields is None else fields):
+            c = e.import_data_by_field(k)
+            want_unit = ip_units[k] if self.ip else si_units[k]
+            if c.header.unit != want_unit:
+                return 'unit of field %d is %s (%s expected)' % (k, c.header.unit, want_unit)
+            got = c.values
+            if k in self.si_vals:
+                want = self.si_vals[k] if not self.ip else _to_unit(c, self.si_vals[k], ip_units[k], si_units[k])
+            else:
+                want = self.base['ip' if self.ip else 'si']['values'][k]
+            if len(got) != len(want):
+                return 'field %d has %d values' % (k, len(got))
+            if tuple(got) != tuple(want):
+                tol = self.tol() or (1e-9 if k in self.si_vals and self.ip else 0.0)
+                bad = [i for i, (p, q) in enumerate(zip(got, want)) if not (p == q or (tol and _close(p, q, tol)))]
+                if bad:
+                    i = bad[0]
+                    return 'field %d index %d is %r, expected %r (%d values differ)' % (k, i, got[i], want[i], len(bad))
+        return None
+
+    def check_object(self, e):
+        hl, loc_t = self.header()
+        d = _hdr_diff(e.header, hl)
+        if d:
+            return d
+        loc = e.location
+        got = (loc.city, loc.state, loc.country, loc.source, loc.station_id, loc.latitude, loc.longitude,
+               loc.time_zone, loc.elevation)
+        if got != loc_t:
+            return 'location is %r, expected %r' % (got, loc_t)
+        if self.loc_plain is not None:
+            a = self.loc_plain
+            want = (a['city'], a['state'], a['country'], a['source'], a['station'], float(a['lat']), float(a['lon']),
+                    float(a['tz']), float(a['elev']))
+            if got != want:
+                return 'location is %r, the user set %r' % (got, want)
+        got_slots = _slot_contents(e)
+        for j, (g, w) in enumerate(zip(got_slots, self.slots())):
+            if g != w:
+                return 'header slot %s holds %s, the state established is %s' % (SLOT_NAMES[j], _short(g), _short(w))
+        if not e.is_data_loaded:
+            return None                   # still lazy: the data is compared once something reads it
+        if e.is_leap_year != self.leap:
+            return 'is_leap_year is %r' % (e.is_leap_year,)
+        return self.check_values(e)
+
+    def rows(self):
+        """Data rows of the file this state is written to (tokens), from the rows a fresh object writes."""
+        rows = self.base['rows']
+        if self.si_vals:
+            rows = [list(r) for r in rows]
+            for k, vals in self.si_vals.items():
+                pit_k = k not in ACCUMULATED
+                for r in range(self.n):
+                    rows[r][k] = str(vals[(r + 1) % self.n] if pit_k else vals[r])
+        return rows
+
+    def check_text(self, text):
+        ls = text.split('\n')
+        if ls[-1] != '':
+            return 'text does not end with a newline'
+        d = _hdr_diff(ls[:8], self.header()[0])
+        if d:
+            return d
+        got = ls[8:-1]
+        want = self.rows()
+        if len(got) != len(want):
+            return '%d data rows (%d expected)' % (len(got), len(want))
+        tol = self.tol()
+        if not self.si_vals and got == self.base['rows_joined']:
+            return None
+        for r, (g, w) in enumerate(zip(got, want)):
+            gt = g.split(',')
+            if gt != w:
+                if tol and len(gt) == len(w) and all(x == y or (_is_num(x) and _is_num(y) and _close(float(x), float(y), tol))
+                                                     for x, y in zip(gt, w)):
+                    continue
+                k = next((i for i in range(min(len(gt), len(w))) if gt[i] != w[i]), -1)
+                return 'data row %d field %d is %s, expected %s' % (r, k, _short(gt[k] if k >= 0 else g),
+                                                                    _short(w[k] if k >= 0 else ','.join(w)))
+        return None
+
+    def check_wea(self, text, hoys, exact=False):
+        _, loc = self.header()
+        ls = text.split('\n')
+        want_h = ['place %s' % loc[0], 'latitude %.2f' % loc[5], 'longitude %.2f' % -loc[6],
+                  'time_zone %d' % (-loc[7] * 15), 'site_elevation %.1f' % loc[8], 'weather_data_file_units 1']
+        if not _wea_head_same(ls[:6], want_h):
+            i = next(i for i in range(6) if not _wea_head_same(ls[i:i + 1], want_h[i:i + 1]))
+            return 'wea header line %d is %r, expected %r' % (i, ls[i] if i < len(ls) else None, want_h[i])
+        body = ls[6:-1]
+        idx = list(hoys) if (hoys or exact) else list(range(self.n))
+        if len(body) != len(idx):
+            return '%d wea lines (%d expected)' % (len(body), len(idx))
+        year = 2016 if self.leap else 2017
+        dn, df = self.si_col(14), self.si_col(15)
+        slack = 1 if self.ever_ip else 0
+        for j, i in enumerate(idx):
+            t = datetime(year, 1, 1) + timedelta(hours=i)
+            tk = body[j].split()
+            ok = len(tk) == 5 and [int(tk[0]), int(tk[1]), float(tk[2])] == [t.month, t.day, t.hour + 0.5] and \
+                abs(int(tk[3]) - int(dn[i])) <= slack and abs(int(tk[4]) - int(df[i])) <= slack
+            if not ok:
+                return 'wea line %d is %r, expected %d %d %.3f %d %d' % (j, body[j], t.month, t.day, t.hour + 0.5,
+                                                                        int(dn[i]), int(df[i]))
+        return None
+
+    def check_mos(self, text, e):
+        ls = text.split('\n')
+        hl = self.header()[0]
+        got_h = [l[1:] for l in ls[2:10]]
+        d = _hdr_diff(got_h, hl) if all(l.startswith('#') for l in ls[2:10]) else 'MOS header lines are not comments'
+        if d:
+            return 'MOS ' + d
+        data = [l for l in ls[10:] if l and not l.startswith('#')]
+        if len(data) != self.n:
+            return '%d MOS data lines (%d expected)' % (len(data), self.n)
+        si_units, ip_units = self.base['si']['units'], self.base['ip']['units']
+        cols = {}
+        for k in range(6, self.nf):
+            if k in self.si_vals and self.ip:
+                cols[k] = _to_unit(e._data[k], self.si_vals[k], ip_units[k], si_units[k])
+            elif k in self.si_vals:
+                cols[k] = self.si_vals[k]
+            else:
+                cols[k] = self.base['ip' if self.ip else 'si']['values'][k]
+        tol = self.tol() or (1e-9 if self.ip and self.si_vals else 0.0)
+        for i in list(range(0, self.n, 13)) + [1, 2, self.n - 2, self.n - 1]:
+            tk = data[i].split('\t')
+            if len(tk) != self.nf - 5 or float(tk[0]) != 3600.0 * i:
+                return 'MOS line %d starts %r (time %d s, %d columns expected)' % (i, tk[:2], 3600 * i, self.nf - 5)
+            for j, k in enumerate(range(6, self.nf)):
+                w = cols[k][i]
+                if tk[j + 1] != str(w) and not (tol and _close(float(tk[j + 1]), float(w), tol)):
+                    return 'MOS line %d field %d is %s, expected %s' % (i, k, tk[j + 1], w)
+        return None
+
+    def check_dict(self, d):
+        _, loc = self.header()
+        ld = d.get('location', {})
+        got = (ld.get('city'), ld.get('state'), ld.get('country'), ld.get('source'), ld.get('station_id'),
+               ld.get('latitude'), ld.get('longitude'), ld.get('time_zone'), ld.get('elevation'))
+        if got != loc:
+            return 'dict location is %r, expected %r' % (got, loc)
+        if d.get('is_ip') != self.ip or d.get('is_leap_year') != self.leap:
+            return 'dict is_ip / is_leap_year are %r / %r' % (d.get('is_ip'), d.get('is_leap_year'))
+        dc = d.get('data_collections', [])
+        if len(dc) != self.nf:
+            return 'dict has %d data collections' % len(dc)
+        return None
+
+
+def _wea_head_same(got, want):
+    if len(got) != len(want):
+        return False
+    for g, w in zip(got, want):
+        if g != w:
+            tg, tw = g.split(' '), w.split(' ')
+            if tg[0] != tw[0] or tg[0] == 'place' or len(tg) != 2 or len(tw) != 2 or not _is_num(tg[1]) or \
+                    float(tg[1]) != float(tw[1]):
+                return False
+    return True
+
+
+def _is_num(s):
+    try:
+        float(s)
+        return True
+    except ValueError:
+        return False
+
+
+def _check_objhist(inp):
+    """Operation history on ONE object.  After every step the object is compared with the state the user
+    established (a fresh object of the same file on which only the accepted setters / unit conversions
+    were performed); every output is compared with what that state determines; a refused operation
+    leaves everything as before."""
+    from ladybug.epw import EPW
+    spec, ops = inp['spec'], inp['ops']
+    base = _baseline(spec)
+    ex = _Expect(base)
+    d = _tmpdir()
+    ctor = inp.get('ctor', 'path')
+    if ctor == 'path':
+        p = os.path.join(d, 'obj.epw')
+        with open(p, 'w') as f:
+            f.write(base['text'])
+        e = EPW(p)
+    elif ctor == 'dict':
+        e = EPW.from_dict(copy.deepcopy(EPW.from_file_string(base['text']).to_dict()))
+    else:
+        e = EPW.from_file_string(base['text'])
+    for j, op in enumerate(ops):
+        name = op[0]
+        sig = {'what': 'history', 'step': name, 'ip': ex.ip, 'refused': False}
+        where = 'after step %d %r of the history' % (j, op)
+
+        def bad(req, obs, **kw):
+            return {'required': req + ' (' + where + ')', 'observed': obs, 'sig': dict(sig, **kw)}
+        if name == 'hdr':
+            dd = _hdr_diff(e.header, ex.header()[0])
+            if dd:
+                return bad('header of the state the user established', dd, part='header')
+            continue
+        if name == 'leap':
+            if e.is_leap_year != ex.leap:
+                return bad('is_leap_year %s' % ex.leap, repr(e.is_leap_year), part='leap')
+            continue
+        if name == 'load':
+            e.dry_bulb_temperature
+        elif name == 'field':
+            k = op[1]
+            if 0 <= k < ex.nf:
+                dd = ex.check_values(e, [k])
+                if dd:
+                    return bad('field %d as established' % k, dd, part='values')
+                continue
+            sig['refused'] = True
+            try:
+                e.import_data_by_field(k)
+                continue                  # accepted (negative indexing ...): nothing established, nothing to compare
+            except Exception:
+                pass
+        elif name == 'ip':
+            e.convert_to_ip()
+            ex.ip = ex.ever_ip = True
+        elif name == 'si':
+            e.convert_to_si()
+            ex.ip = False
+        elif name in ('write', 'write_path', 'save'):
+            if name == 'write':
+                text = e.to_file_string()
+            else:
+                fp = os.path.join(d, 'out_%d.epw' % j)
+                ret = e.write(fp) if name == 'write_path' else e.save(fp)
+                with open(fp) as f:
+                    text = f.read()
+                os.remove(fp)
+                if ret != text:
+                    return bad('%s returns the text it wrote' % name, 'differs', part='text')
+            dd = ex.check_text(text)
+            if dd:
+                return bad('file text of the state the user established', dd, part='text')
+        elif name == 'write_fail':
+            k = op[1] % ex.nf
+            if not e.is_data_loaded:
+                e.dry_bulb_temperature
+            sig['refused'] = True
+            saved = e._data[k]._values.pop()
+            try:
+                e.to_file_string()
+                res = 'returned'
+            except ValueError:
+                res = 'ValueError'
+            except Exception as exn:
+                res = type(exn).__name__
+            e._data[k]._values.append(saved)
+            if res != 'ValueError':
+                return bad('ValueError for data that is not a full year', res, part='result')
+        elif name == 'wea':
+            hoys = op[1] if len(op) > 1 else None
+            wp = os.path.join(d, 'h_%d.wea' % j)
+            refused = bool(hoys) and any(h >= ex.n or h < -ex.n for h in hoys)
+            try:
+                e.to_wea(wp, hoys)
+                with open(wp) as f:
+                    text = f.read()
+                os.remove(wp)
+                # (an hour outside the year that is not refused must not bring the numbers of another hour)
+                dd = ex.check_wea(text, [h for h in hoys if -ex.n <= h < ex.n], True) if refused else ex.check_wea(text, hoys)
+                if dd:
+                    return bad('Wea file of the state the user established', dd, part='wea')
+            except IndexError:
+                if not refused:
+                    raise
+                sig['refused'] = True
+        elif name == 'mos':
+            mp = e.to_mos(os.path.join(d, 'h_%d.mos' % j))
+            with open(mp) as f:
+                text = f.read()
+            os.remove(mp)
+            dd = ex.check_mos(text, e)
+            if dd:
+                return bad('MOS file of the state the user established', dd, part='mos')
+        elif name == 'dict':
+            dct = e.to_dict()
+            dd = ex.check_dict(dct)
+            if not dd:
+                keep = copy.deepcopy(dct)
+                e3 = EPW.from_dict(dct)
+                if dct != keep:
+                    return bad('from_dict leaves its argument unchanged', 'argument changed', part='dict_argument')
+                dd = ex.check_object(e3)
+                if not dd and op[1:] == ['adopt']:
+                    e = e3                # the history goes on with the rebuilt object
+            if dd:
+                return bad('dictionary of the state the user established', dd, part='dict')
+        elif name == 'from_dict_bad':
+            sig['refused'] = True
+            dct = e.to_dict()
+            dct['data_collections'] = dct['data_collections'][:op[1]]
+            keep = copy.deepcopy(dct)
+            try:
+                EPW.from_dict(dct)
+                continue
+            except Exception:
+                pass
+            if dct != keep:
+                return bad('refused from_dict leaves its argument unchanged', 'argument changed', part='dict_argument')
+        elif name in HEADER_SETTERS:
+            valid = _setter_valid(op)
+            sig['refused'] = not valid
+            sig['setter'] = name if name != 'loc_attr' else 'loc_attr:' + op[1]
+            try:
+                _apply_header_setter(e, op)
+                raised = None
+            except (AssertionError, ValueError, TypeError) as exn:
+                raised = exn
+            if valid and raised is not None:
+                return bad('setter accepts a valid argument', '%s: %s' % (type(raised).__name__, raised), part='setter')
+            if not valid and raised is None:
+                continue                  # accepted what the documentation excludes: no state established
+            if valid:
+                ex.accept(op)
+        elif name == 'set_values':
+            k, tag = op[1], op[2]
+            vals = _new_values(k, tag, ex.n)
+            c = e.import_data_by_field(k)
+            c.values = vals
+            si_u, ip_u = base['si']['units'][k], base['ip']['units'][k]
+            ex.si_vals[k] = vals if not ex.ip else _to_unit(c, vals, si_u, ip_u)
+        elif name == 'set_values_bad':
+            sig['refused'] = True
+            c = e.import_data_by_field(op[1])
+            try:
+                c.values = [1.0] * (ex.n - op[2])
+                continue
+            except (AssertionError, ValueError):
+                pass
+        else:
+            raise ValueError('unknown history op %r' % (op,))
+        try:
+            dd = ex.check_object(e)
+        except Exception as exn:
+            dd = 'reading the object raises %s: %s' % (type(exn).__name__, exn)
+        if dd:
+            what = 'a refused operation leaves the object as it was' if sig['refused'] else \
+                'the object is the state the user established'
+            return bad(what, dd, part='object')
+    if inp.get('final', True):
+        sig = {'what': 'history', 'step': 'final', 'ip': ex.ip, 'refused': False}
+        text = e.to_file_string()
+        dd = ex.check_text(text)
+        if not dd and not ex.ever_ip:
+            e2 = EPW.from_file_string(text)
+            dd = _hdr_diff(e2.header, ex.header()[0]) or ex.check_values(e2)
+            if dd:
+                dd = 're-read object: ' + dd
+        if dd:
+            return {'required': 'after the history %r the object is written as the state the user established and '
+                                'reads back' % (ops,), 'observed': dd, 'sig': dict(sig, part='final')}
+    return None
+
+
+R3_LOCS = [
+    {'city': 'Lisboa', 'state': '-', 'country': 'PRT', 'lat': 38.73, 'lon': -9.15, 'tz': 0.0, 'elev': 71.0,
+     'station': '085360', 'source': 'INETI'},
+    {'city': 'Reykjavik', 'state': '-', 'country': 'ISL', 'lat': 64.13, 'lon': -21.9, 'tz': 0, 'elev': 0,
+     'station': '040300', 'source': 'IWEC'},
+    {'city': 'Null Island', 'state': 'NI', 'country': 'ATL', 'lat': 0.0, 'lon': 0.0, 'tz': 0.0, 'elev': 0.0,
+     'station': '000000', 'source': 'SRC'},
+    {'city': 'South Pole', 'state': 'AQ', 'country': 'ATA', 'lat': -90.0, 'lon': 180.0, 'tz': 14.0, 'elev': 2835.0,
+     'station': '890090', 'source': 'IWEC'},
+    {'city': 'Baker', 'state': 'UM', 'country': 'USA', 'lat': 0.19, 'lon': -176.48, 'tz': -12.0, 'elev': -0.5,
+     'station': '999999', 'source': 'TMYx'},
+    {'city': 'Mumbai', 'state': 'MH', 'country': 'IND', 'lat': 19.12, 'lon': 72.85, 'tz': 5.5, 'elev': 14.0,
+     'station': '430030', 'source': 'ISHRAE'},
+]
+
+
+def _rand_loc(rng):
+    if rng.random() < 0.5:
+        return dict(rng.choice(R3_LOCS))
+    return {'city': rng.choice(['Test City', 'X', 'Van Nuys']), 'state': rng.choice(['ST', '-', 'CA']),
+            'country': rng.choice(['USA', 'DEU']), 'station': rng.choice(['725300', '000010']),
+            'source': rng.choice(['TMY3', 'Custom']),
+            'lat': rng.choice([0.0, 90.0, -90.0, 0, round(rng.uniform(-90, 90), 2)]),
+            'lon': rng.choice([0.0, 180.0, -180.0, 0, round(rng.uniform(-180, 180), 2)]),
+            'tz': rng.choice([0.0, 0, -12.0, 14.0, 5.75, float(rng.randrange(-12, 15))]),
+            'elev': rng.choice([0.0, 0, -12.5, float(rng.randrange(0, 3000))])}
+
+
+def _rand_obj_op(rng, n, k_set):
+    """One history op: reads ~50 %, accepted mutators ~30 %, refused operations ~20 %."""
+    r = rng.random()
+    if r < 0.5:
+        return rng.choice([
+            ['hdr'], ['leap'], ['load'], ['field', rng.choice([0, 3, 5, 6, 9, 14, 20, 34, rng.randrange(35)])],
+            ['write'], ['write'], ['write_path'], ['save'], ['wea'], ['wea', [0]], ['wea', [n - 1, 0, 12]],
+            ['wea', []], ['mos'], ['dict'], ['dict', 'adopt']])
+    if r < 0.8:
+        tag = rng.randrange(1000)
+        st = datetime(2017, 1, 1) + timedelta(days=rng.randrange(0, 358))
+        return rng.choice([
+            ['ip'], ['si'], ['set_loc', _rand_loc(rng)], ['set_loc', _rand_loc(rng)],
+            ['set_design', rng.randrange(3), rng.choice(['full', 'full', 'empty']), tag],
+            ['set_weeks', rng.randrange(3), rng.choice(['ok', 'ok', 'empty']), st.month, st.day],
+            ['set_ground', rng.choice(['ok', 'ok', 'empty']), tag],
+            ['set_comments', rng.choice([1, 2]), rng.choice(['', '0', 'a,b,,c', 'edited %d' % tag])],
+            ['set_dst', rng.choice(['0', '3/8', ' 3/ 8']), rng.choice(['0', '11/1'])],
+            ['loc_attr', 'elevation', rng.choice([0, 0.0, 12.5, -3.0])],
+            ['loc_attr', 'time_zone', rng.choice([0, 0.0, -12, 14, 3.5])],
+            ['loc_attr', 'latitude', rng.choice([0.0, 90, -90, 12.25])],
+            ['set_values', rng.choice(k_set), tag]])
+    return rng.choice([
+        ['field', rng.choice([35, 99, -1])], ['write_fail', rng.choice([0, 6, 14, 20, 33, 34, rng.randrange(35)])],
+        ['wea', [5, n]], ['wea', [n + 3]], ['set_loc_bad'], ['set_design', rng.randrange(3), 'bad', 1],
+        ['set_design', rng.randrange(3), 'notdict', 1], ['set_weeks', rng.randrange(3), 'bad', 6, 10],
+        ['set_weeks', rng.randrange(3), 'notdict', 1, 1], ['set_ground', 'bad', 1], ['set_ground', 'notdict', 1],
+        ['loc_attr', 'latitude', rng.choice([95.0, -100])], ['loc_attr', 'longitude', 200.0],
+        ['loc_attr', 'time_zone', rng.choice([15, -13.0])], ['set_values_bad', rng.choice(k_set), rng.choice([1, 24])],
+        ['from_dict_bad', rng.choice([34, 0])]])
+
+
+R3_SPECS = [{'leap': 'No', 'mode': 'ids', 'seed': 1},
+            {'leap': 'Yes', 'mode': 'ids', 'seed': 2, 'header': None},
+            {'leap': 'No', 'mode': 'canon', 'seed': 3, 'header': None}]
+
+
+def _r3_spec(i):
+    s = dict(R3_SPECS[i])
+    if 'header' in s:
+        o = rand_header_opts(random.Random(100 + i), leap_tok=s['leap'])
+        o['design'] = ['none', '2009', '2021'][i]
+        o.update(city='Test City', state='ST', country='USA', source='TMY3', station='725300')
+        s['header'] = o
+    return s
+
+
+def _gen_objhist(rng, spec_i, length):
+    spec = _r3_spec(spec_i)
+    n = _n_hours(spec['leap'] == 'Yes')
+    k_set = [6, 8, 14, 20, 22, 33]
+    ops = [_rand_obj_op(rng, n, k_set) for _ in range(length)]
+    # read -> set -> read (and write -> set -> write) patterns around every accepted setter
+    out = []
+    for op in ops:
+        if op[0].startswith('set_') or op[0] in ('loc_attr', 'ip', 'si'):
+            if rng.random() < 0.6:
+                out.append(rng.choice([['hdr'], ['write'], ['dict'], ['mos'], ['wea', [0]]]))
+            out.append(op)
+            if rng.random() < 0.6:
+                out.append(rng.choice([['hdr'], ['write'], ['dict'], ['mos'], ['wea', [1]]]))
+        else:
+            out.append(op)
+    return {'spec': spec, 'ops': out, 'ctor': rng.choice(['path', 'path', 'string', 'dict'])}
+
+
+R3_FIXED_HIST = [
+    {'spec': 0, 'ctor': 'path', 'ops': [['hdr'], ['write'], ['write'], ['set_loc', R3_LOCS[0]], ['hdr'], ['save'],
+                                        ['mos'], ['wea', [0]], ['dict']], 'final': False},
+    {'spec': 0, 'ctor': 'path', 'ops': [['write_fail', 0], ['write'], ['ip'], ['write_fail', 6],
+                                        ['set_values', 8, 4], ['wea', [5, 8760]], ['mos'], ['si'], ['field', 8],
+                                        ['write_fail', 34]]},
+    {'spec': 1, 'ctor': 'string', 'ops': [['dict', 'adopt'], ['set_loc', R3_LOCS[2]], ['dict', 'adopt'], ['write'],
+                                          ['loc_attr', 'time_zone', 0], ['write'], ['set_comments', 1, '0'],
+                                          ['set_design', 0, 'empty', 1], ['hdr'], ['write_path']], 'final': False},
+    {'spec': 2, 'ctor': 'path', 'ops': [['set_values', 6, 5], ['write'], ['set_values', 14, 6], ['wea'], ['mos'],
+                                        ['set_values_bad', 6, 1], ['write'], ['set_ground', 'ok', 3], ['hdr'],
+                                        ['set_weeks', 0, 'ok', 7, 1], ['set_weeks', 1, 'bad', 1, 5], ['write']]},
+    {'spec': 1, 'ctor': 'path', 'ops': [['set_design', 0, 'full', 1], ['set_design', 1, 'full', 2], ['hdr'],
+                                        ['set_design', 2, 'full', 3], ['hdr'], ['set_design', 1, 'bad', 4], ['hdr'],
+                                        ['set_loc_bad'], ['loc_attr', 'elevation', 0], ['write'], ['ip'], ['dict'],
+                                        ['from_dict_bad', 34], ['mos'], ['write']], 'final': False},
+    # header slots only (the object stays lazy): every setter replaces what was there, also by something empty
+    {'spec': 1, 'ctor': 'path', 'final': False,
+     'ops': [['set_weeks', 0, 'ok', 7, 1], ['set_weeks', 1, 'ok', 1, 10], ['set_weeks', 2, 'ok', 4, 3], ['hdr'],
+             ['set_weeks', 0, 'empty', 1, 1], ['set_weeks', 1, 'empty', 1, 1], ['set_weeks', 2, 'empty', 1, 1], ['hdr'],
+             ['set_ground', 'ok', 3], ['hdr'], ['set_ground', 'empty', 0], ['set_design', 0, 'full', 1],
+             ['set_design', 1, 'full', 1], ['set_design', 2, 'full', 1], ['hdr'], ['set_design', 1, 'empty', 2], ['hdr'],
+             ['set_comments', 1, ''], ['set_comments', 2, '0'], ['set_dst', '0', '0'], ['hdr'],
+             ['set_loc', R3_LOCS[2]], ['hdr'], ['set_loc', R3_LOCS[3]], ['hdr'],
+             # every setter refuses what its validation excludes, and nothing is left behind
+             ['set_ground', 'bad', 1], ['set_ground', 'notdict', 1], ['set_weeks', 0, 'bad', 6, 10],
+             ['set_weeks', 1, 'bad', 12, 30], ['set_weeks', 2, 'bad', 2, 27], ['set_weeks', 0, 'notdict', 1, 1],
+             ['set_weeks', 1, 'notdict', 1, 1], ['set_weeks', 2, 'notdict', 1, 1], ['set_design', 0, 'bad', 9],
+             ['set_design', 1, 'bad', 9], ['set_design', 2, 'bad', 9], ['set_design', 0, 'notdict', 9],
+             ['set_design', 1, 'notdict', 9], ['set_design', 2, 'notdict', 9], ['set_loc_bad'],
+             ['loc_attr', 'latitude', 95.0], ['loc_attr', 'longitude', -200.0], ['loc_attr', 'time_zone', 15],
+             ['loc_attr', 'latitude', -90.5], ['hdr'], ['loc_attr', 'elevation', 0], ['loc_attr', 'time_zone', 0],
+             ['hdr']]},
+]
+
+
+def _fixed_hist(i):
+    h = R3_FIXED_HIST[i]
+    return dict(h, spec=_r3_spec(h['spec']))
+
+
+def _check_locdict(inp):
+    """Dictionary route of the location with rare values (zeros, bounds): an EPW rebuilt from its own
+    dictionary (or from a dictionary whose location is replaced) has the same location and writes the
+    same LOCATION line / Wea header."""
+    from ladybug.epw import EPW
+    a = inp['loc']
+    base = _baseline(_r3_spec(0))
+    e = EPW.from_file_string(base['text']) if 'obj' not in _LOCDICT else _LOCDICT['obj']
+    _LOCDICT['obj'] = e
+    want = (a['city'], a['state'], a['country'], a['source'], a['station'], float(a['lat']), float(a['lon']),
+            float(a['tz']), float(a['elev']))
+    sig = {'what': 'location_dict', 'tz_zero': not a['tz'], 'elev_zero': not a['elev'], 'lat_zero': not a['lat'],
+           'lon_zero': not a['lon']}
+    e.location = _setter_arg(['set_loc', a])
+    line = e.header[0]
+    want_line = 'LOCATION,' + ','.join(str(x) for x in want)
+    if not _loc_line_same(line.strip(), want_line):
+        return {'required': 'LOCATION line ' + want_line, 'observed': line.strip(), 'sig': dict(sig, route='setter')}
+    for route in ('dict', 'dict_plain'):
+        d = e.to_dict()
+        if route == 'dict_plain':       # a dictionary written by hand / by another program: plain numbers
+            d = dict(d, location={'city': a['city'], 'state': a['state'], 'country': a['country'],
+                                  'latitude': a['lat'], 'longitude': a['lon'], 'time_zone': a['tz'],
+                                  'elevation': a['elev'], 'station_id': a['station'], 'source': a['source'],
+                                  'type': 'Location'})
+        e2 = EPW.from_dict(d)
+        loc = e2.location
+        got = (loc.city, loc.state, loc.country, loc.source, loc.station_id, loc.latitude, loc.longitude,
+               loc.time_zone, loc.elevation)
+        if got != want:
+            return {'required': 'location %r after to_dict -> from_dict' % (want,), 'observed': repr(got),
+                    'sig': dict(sig, route=route)}
+        if not _loc_line_same(e2.header[0].strip(), want_line):
+            return {'required': 'LOCATION line ' + want_line, 'observed': e2.header[0].strip(),
+                    'sig': dict(sig, route=route + ':header')}
+        wh = e2._get_wea_header().split('\n')
+        want_h = ['place %s' % want[0], 'latitude %.2f' % want[5], 'longitude %.2f' % -want[6],
+                  'time_zone %d' % (-want[7] * 15), 'site_elevation %.1f' % want[8]]
+        if not _wea_head_same(wh[:5], want_h):
+            return {'required': 'Wea header %r' % (want_h,), 'observed': repr(wh[:5]), 'sig': dict(sig, route=route + ':wea')}
+    # the text route: a file with this LOCATION line
+    lines = [want_line] + base['hdr'][1:]
+    e3, p3 = _header_only_epw(lines)
+    try:
+        loc = e3.location
+        got = (loc.city, loc.state, loc.country, loc.source, loc.station_id, loc.latitude, loc.longitude,
+               loc.time_zone, loc.elevation)
+        l3 = e3.header[0].strip()
+    finally:
+        os.remove(p3)
+    if got != want or not _loc_line_same(l3, want_line):
+        return {'required': 'location %r read from the text' % (want,), 'observed': '%r / %s' % (got, l3),
+                'sig': dict(sig, route='text')}
+    return None
+
+
+_LOCDICT = {}
+
+
+# --- process order: the same self-checking cases in fresh interpreters, in different orders
+
+
+def _worker_main():
+    """Child process: reads {'cases': [[op, inp], ...]} from stdin, evaluates them in that order in this
+    fresh interpreter, prints one JSON list of results (None | failure dict)."""
+    import sys
+    repo = os.environ.get('LADYBUG_REPO', '/repo')
+    if repo not in sys.path:
+        sys.path.insert(0, repo)
+    job = json.loads(sys.stdin.read())
+    out = []
+    for op, inp in job['cases']:
+        try:
+            res = check_case(op, inp)
+        except Exception as e:
+            res = {'required': 'oracle evaluates', 'observed': 'exception %s: %s' % (type(e).__name__, e),
+                   'sig': {'exception': type(e).__name__}}
+        out.append(res)
+    sys.stdout.write('\n@@R3@@' + json.dumps(out, default=str))
+
+
+_PENDING = {}
+
+
+def _order_start(inp):
+    """Start the fresh interpreter for one order (runs beside the other oracle cases)."""
+    import subprocess
+    import sys
+    root = os.path.normpath(os.path.join(os.path.dirname(os.path.abspath(__file__)), '..', '..'))
+    code = 'import sys; sys.path.insert(0, %r); from harness.props import c01; c01._worker_main()' % root
+    p = subprocess.Popen([sys.executable, '-c', code], stdin=subprocess.PIPE, stdout=subprocess.PIPE,
+                         stderr=subprocess.PIPE, env=dict(os.environ))
+    p.stdin.write(json.dumps({'cases': inp['order']}).encode())
+    p.stdin.close()
+    p.stdin = None
+    return p
+
+
+def _check_order(inp):
+    """Evaluate the cases of `inp['order']` in ONE fresh interpreter in the given order; the first failing case
+    is the result (the whole order is the replay input)."""
+    key = json.dumps(inp, sort_keys=True)
+    p = _PENDING.pop(key, None) or _order_start(inp)
+    try:
+        out, err = p.communicate(timeout=900)
+    finally:
+        if p.poll() is None:
+            p.kill()
+    txt = out.decode('utf-8', 'replace')
+    if '@@R3@@' not in txt:
+        return {'required': 'the cases run in a fresh interpreter', 'observed': 'worker exit %s: %s' % (
+            p.returncode, err.decode('utf-8', 'replace')[-400:]), 'sig': {'what': 'order_worker'}}
+    res = json.loads(txt.split('@@R3@@')[1])
+    for i, r in enumerate(res):
+        if r:
+            alone = 'not run'
+            if i > 0 and not inp.get('nested'):
+                alone = _check_order({'order': [inp['order'][i]], 'nested': True})
+            s = dict(r.get('sig') or {})
+            s['order_dependent'] = bool(i > 0 and alone is None)
+            s['case_op'] = inp['order'][i][0]
+            return {'required': 'case %d of the order (%s %s) holds in a fresh interpreter after the %d cases before it: %s'
+                                % (i, inp['order'][i][0], _short(inp['order'][i][1]), i, r.get('required')),
+                    'observed': '%s%s' % (r.get('observed'), ' [alone in a fresh interpreter the case holds]'
+                                          if s['order_dependent'] else ''), 'sig': s}
+    return None
+
+
+def _order_pool(rng, big):
+    """Self-checking cases for the process-order layer, rare classes marked."""
+    leap_hist = {'spec': _r3_spec(1), 'ctor': 'path', 'final': False,
+                 'ops': [['hdr'], ['write'], ['wea', [0, 8783]], ['mos'], ['dict']]}
+    plain_hist = {'spec': _r3_spec(0), 'ctor': 'path', 'final': False,
+                  'ops': [['write'], ['set_loc', R3_LOCS[0]], ['write'], ['wea', [0, 8759]], ['mos'], ['dict']]}
+    fail_hist = {'spec': _r3_spec(0), 'ctor': 'string', 'final': False,
+                 'ops': [['write_fail', 6], ['wea', [5, 8760]], ['set_loc_bad'], ['from_dict_bad', 34], ['write']]}
+    ip_hist = {'spec': _r3_spec(0), 'ctor': 'path', 'final': False, 'ops': [['ip'], ['write'], ['mos'], ['si'], ['write']]}
+    if not big:
+        rare = [('missing', {'leap': True}), ('objhist', fail_hist), ('objhist', leap_hist), ('locdict', {'loc': R3_LOCS[1]})]
+        plain = [('objhist', plain_hist), ('locdict', {'loc': R3_LOCS[5]}),
+                 ('hdr_roundtrip', {'seed': rng.randrange(10 ** 6)}), ('flags', {'field': 6})]
+        return rare, plain
+    rare = [('missing', {'leap': True}), ('objhist', leap_hist), ('objhist', fail_hist), ('objhist', ip_hist),
+            ('locdict', {'loc': R3_LOCS[1]}), ('roundtrip', {'file': 'los_angeles_no_leap_field.epw'}),
+            ('exports', {'file': 'chicago.epw', 'ip': True})]
+    plain = [('missing', {'leap': False}), ('objhist', plain_hist), ('locdict', {'loc': R3_LOCS[5]}),
+             ('hdr_roundtrip', {'seed': rng.randrange(10 ** 6)}), ('flags', {'field': 6}),
+             ('roundtrip', {'file': 'chicago.epw'}), ('exports', {'file': 'chicago.epw'})]
+    return rare, plain
+
+
+def _orders(rng, big):
+    rare, plain = _order_pool(rng, big)
+    a = [list(c) for c in rare + plain]                    # rare classes first (leap, failing calls, IP)
+    b = [list(c) for c in plain + rare]                    # plain first
+    if not big:
+        if rng.random() < 0.5:                             # second order: plain first, rare ones reversed or shuffled
+            b = [list(c) for c in plain] + [list(c) for c in reversed(rare)]
+        return [a, b]
+    c = [list(x) for x in rare + plain]
+    rng.shuffle(c)
+    d = [list(x) for x in reversed(rare)] + [list(x) for x in reversed(plain)]
+    return [a, b, c, d]
+
+
+# --- correspondence of histories with the object state machine (Model/EpwObj.lean, driver op `obj`)
+
+
+def _slot_contents(e):
+    """Canonical content of the 11 header slots, read from the private attributes (no lazy load is triggered)."""
+    loc = getattr(e, '_location', None)
+    loc_t = None if loc is None else (loc.city, loc.state, loc.country, loc.source, loc.station_id,
+                                      float(loc.latitude), float(loc.longitude), float(loc.time_zone),
+                                      float(loc.elevation))
+
+    def dd(d):
+        return tuple(sorted(d.items())) if isinstance(d, dict) else repr(d)
+
+    def wk(d):
+        return tuple(sorted((k, (a.st_month, a.st_day, a.end_month, a.end_day)) for k, a in d.items())) \
+            if isinstance(d, dict) else repr(d)
+
+    def gr(d):
+        if not isinstance(d, dict):
+            return repr(d)
+        out = []
+        for depth, col in d.items():
+            md = col.header.metadata
+            out.append((float(depth), (md.get('soil conductivity'), md.get('soil density'), md.get('soil specific heat')),
+                        tuple(col.values)))
+        return tuple(sorted(out))
+    return [loc_t, dd(e._heating_dict), dd(e._cooling_dict), dd(e._extremes_dict), wk(e._extreme_hot_weeks),
+            wk(e._extreme_cold_weeks), wk(e._typical_weeks), gr(e._monthly_ground_temps),
+            (e.daylight_savings_start, e.daylight_savings_end), e.comments_1, e.comments_2]
+
+
+def _slot_of_op(op, cur):
+    """(slot number, content the accepted setter establishes), from the plain values of the op."""
+    name = op[0]
+    if name == 'set_loc':
+        a = op[1]
+        return 0, (a['city'], a['state'], a['country'], a['source'], a['station'], float(a['lat']), float(a['lon']),
+                   float(a['tz']), float(a['elev']))
+    if name == 'loc_attr':
+        t = list(cur[0])
+        t[{'latitude': 5, 'longitude': 6, 'time_zone': 7, 'elevation': 8}[op[1]]] = float(op[2])
+        return 0, tuple(t)
+    if name == 'set_design':
+        arg = _setter_arg(op)
+        return 1 + op[1], tuple(sorted(arg.items())) if isinstance(arg, dict) else None
+    if name == 'set_weeks':
+        if op[2] in ('empty', 'notdict'):
+            return 4 + op[1], ()
+        st = datetime(2017, op[3], op[4])
+        en = st + timedelta(days=2 if op[2] == 'bad' else 6)
+        return 4 + op[1], (([R3_HOT, R3_COLD, R3_TYP][op[1]], (st.month, st.day, en.month, en.day)),)
+    if name == 'set_ground':
+        kind, tag = op[1], op[2]
+        if kind != 'ok':
+            return 7, ()
+        return 7, tuple((depth, ('1.%d' % (tag % 10), '', '0'), tuple(float(tag % 7 + i + j) + 0.25 for i in range(12)))
+                        for j, depth in enumerate([0.5, 2.0][:1 + tag % 2]))
+    if name == 'set_comments':
+        return 8 + op[1], op[2]
+    if name == 'set_dst':
+        return 8, (op[1], op[2])
+    if name == 'set_loc_bad':
+        return 0, None
+    raise ValueError(op)
+
+
+def _run_obj_pair(spec, ctor, ops):
+    """Run a history on the real object and translate it for the model; returns (driver request, impl answer)."""
+    from ladybug.epw import EPW
+    base = _baseline(spec)
+    d = _tmpdir()
+    twin, ptw = _header_only_epw(base['hdr'])
+    try:
+        twin.location
+        file_c = _slot_contents(twin)
+    finally:
+        os.remove(ptw)
+    ids = [{repr(file_c[j]): 0} for j in range(11)]       # per slot: content -> id (0 = what the file holds)
+    cur = list(file_c)                                     # content the accepted setters established
+
+    def slot_ids(e):
+        if not e.is_header_loaded:
+            return ['999'] * 11
+        return [str(ids[j].get(repr(x), 'unknown')) for j, x in enumerate(_slot_contents(e))]
+    if ctor == 'path':
+        p = os.path.join(d, 'cobj.epw')
+        with open(p, 'w') as f:
+            f.write(base['text'])
+        e = EPW(p)
+    elif ctor == 'dict':
+        e = EPW.from_dict(copy.deepcopy(EPW.from_file_string(base['text']).to_dict()))
+    else:
+        e = EPW.from_file_string(base['text'])
+    n = _n_hours(base['si']['leap'])
+    ncols = spec.get('ncols', 35)
+    toks, out = [], []
+    ip = False
+    for j, op in enumerate(ops):
+        name = op[0]
+        if name in ('from_dict_bad',) or (name in ('set_values', 'set_values_bad') and ip):
+            continue
+        try:
+            if name in ('hdr', 'leap'):
+                toks.append('H')
+                e.location
+                res = 'ok'
+            elif name == 'load':
+                toks.append('L')
+                e.dry_bulb_temperature
+                res = 'ok'
+            elif name == 'field':
+                k = op[1] if op[1] >= 0 else 9999
+                toks.append('G:%d' % k)
+                res = 'ok%d' % _col_fp(_si_ids_of(e, e.import_data_by_field(op[1]), op[1]))
+            elif name == 'ip':
+                toks.append('I')
+                e.convert_to_ip()
+                ip = True
+                res = 'ok'
+            elif name == 'si':
+                toks.append('S')
+                e.convert_to_si()
+                ip = False
+                res = 'ok'
+            elif name in ('write', 'write_path', 'save'):
+                toks.append('W')
+                if name == 'write':
+                    text = e.to_file_string()
+                else:
+                    fp_ = os.path.join(d, 'cout.epw')
+                    (e.write if name == 'write_path' else e.save)(fp_)
+                    with open(fp_) as f:
+                        text = f.read()
+                res = 'ok%d:%d' % _rows_hash(text)
+            elif name == 'write_fail':
+                k = op[1] % 35
+                toks.append('F:%d' % k)
+                if not e.is_data_loaded:
+                    e.dry_bulb_temperature
+                saved = e._data[k]._values.pop()
+                try:
+                    res = 'ok%d:%d' % _rows_hash(e.to_file_string())
+                finally:
+                    e._data[k]._values.append(saved)
+            elif name == 'wea':
+                hoys = op[1] if len(op) > 1 else None
+                toks.append('E' if hoys is None else 'E:' + ','.join(str(h) for h in hoys))
+                wp = os.path.join(d, 'cobj.wea')
+                e.to_wea(wp, hoys)
+                with open(wp) as f:
+                    ls = f.read().split('\n')[6:-1]
+                idx = list(hoys) if hoys else list(range(n))
+                hs = []
+                for l, r in zip(ls, idx):
+                    t = l.split()
+                    a, b = int(t[3]), int(t[4])
+                    if ip:      # SI values recomputed from IP are truncated by %d: one unit of slack, then the id
+                        ea, eb = r * ncols + 15, r * ncols + 16
+                        a = ea if abs(a - ea) <= 1 else a
+                        b = eb if abs(b - eb) <= 1 else b
+                    hs.append(_hash_list([int(t[0]), int(t[1]), int(float(t[2]) - 0.5), a, b]))
+                res = 'ok%d:%d' % (len(ls), _hash_list(hs))
+            elif name == 'mos':
+                toks.append('M')
+                mp = e.to_mos(os.path.join(d, 'cobj.mos'))
+                with open(mp) as f:
+                    ls = [l for l in f.read().split('\n') if l and not l.startswith('#') and not l.startswith('double')]
+                cols = list(zip(*[l.split('\t') for l in ls]))
+                back = [[int(round(float(x))) for x in cols[0]]]
+                for jj, k in enumerate(range(6, e._num_of_fields)):
+                    back.append(_si_ids_of(e, e._data[k], k, [float(x) for x in cols[jj + 1]]))
+                res = 'ok%d:%d' % (len(ls), _hash_list([_hash_list(list(row)) for row in zip(*back)]))
+            elif name == 'dict':
+                toks.append('D')
+                res = 'ok:' + _fp(EPW.from_dict(copy.deepcopy(e.to_dict())))
+            elif name in HEADER_SETTERS:
+                valid = _setter_valid(op)
+                slot, content = _slot_of_op(op, cur)
+                if valid:
+                    new_id = ids[slot].setdefault(repr(content), len(ids[slot]))
+                else:
+                    new_id = 0
+                toks.append('T:%d:%d:%d' % (slot, new_id, 1 if valid else 0))
+                _apply_header_setter(e, op)
+                if valid:
+                    cur[slot] = content
+                res = 'ok'
+            elif name == 'set_values':
+                k, tag = op[1], op[2]
+                toks.append('V:%d:%d:%d' % (k, tag, n))
+                vals = [tag * 1000000 + i + 1 for i in range(n)]
+                e.import_data_by_field(k).values = [float(v) for v in vals] if VT[k] == 'float' else vals
+                res = 'ok'
+            elif name == 'set_values_bad':
+                toks.append('V:%d:1:%d' % (op[1], n - op[2]))
+                e.import_data_by_field(op[1]).values = [1] * (n - op[2])
+                res = 'ok'
+            else:
+                raise KeyError('history op %r' % (op,))
+        except (AssertionError, ValueError, IndexError, TypeError) as ex:
+            res = 'err:' + err_name(ex)
+        out.append(res + '@' + _fp(e) + 's' + '-'.join(slot_ids(e)))
+    lp = {'Yes': 'Y', 'No': 'N'}.get(spec['leap'], 'X')
+    nrows = spec.get('nrows', 8784 if spec['leap'] == 'Yes' else 8760)
+    req = 'obj %s %d %d %d %s %s' % (lp, nrows, ncols, spec.get('blank', -1), 'P' if ctor == 'path' else 'S', ' '.join(toks))
+    return req, ' '.join(out)
+
+
+def _si_ids_of(e, c, k, vals=None):
+    from ladybug.epw import EPWFields
+    vals = c._values if vals is None else vals
+    want = EPWFields.field_by_number(k).unit
+    if c.header.unit != want:
+        vals = c.header.data_type.to_unit(list(vals), want, c.header.unit)
+    return [int(round(float(v))) for v in vals]
+
+
+def _corr_objhist(ctx):
+    rng = ctx.rng
+    drv = ctx.driver()
+    cases = [_fixed_hist(i) for i in ((1, 5) if ctx.quick and not ctx.searching else range(len(R3_FIXED_HIST)))]
+    for j in range(ctx.n(1, 40)):
+        cases.append(_gen_objhist(rng, j % 2, rng.randrange(3, 6 if ctx.quick else 12)))
+    req = mo = ''
+    for h in cases:
+        spec = dict(h['spec'], mode='ids')
+        try:
+            req, io = _run_obj_pair(spec, h.get('ctor', 'path'), h['ops'])
+        except Exception as ex:
+            req, io = None, 'err:' + err_name(ex) + ':' + str(ex)[:200]
+        mo = drv.run([req])[0] if req else 'no-request'
+        ctx.compared += 1
+        ctx.count('op:obj')
+        ctx.case(('obj', req), nontrivial=True)
+        if mo != io:
+            ms, is_ = mo.split(' '), io.split(' ')
+            i = next((i for i in range(min(len(ms), len(is_))) if ms[i] != is_[i]), min(len(ms), len(is_)))
+            ctx.disagree('obj', {'spec': spec, 'ctor': h.get('ctor', 'path'), 'ops': h['ops'], 'first_differing_step': i},
+                         ' '.join(ms[max(0, i - 1):i + 1]), ' '.join(is_[max(0, i - 1):i + 1]))
+    ctx.sample({'op': 'obj', 'request': req[:300] if req else None, 'model': mo[:300]})
+
+
+_R3_OPS = {'objhist': _check_objhist, 'locdict': _check_locdict, 'order': _check_order}
+
+
+def _r3_oracle_cases(ctx):
+    rng = ctx.rng
+    big = ctx.searching or not ctx.quick
+    for a in R3_LOCS:
+        yield 'locdict', {'loc': a}
+    for _ in range(20 if not big else 300):
+        yield 'locdict', {'loc': _rand_loc(rng)}
+    n_hist = 1 if not big else (20 if ctx.quick else 60)      # (a search after a broken tie in the quick tier: 20)
+    for i in range(len(R3_FIXED_HIST)):
+        yield 'objhist', _fixed_hist(i)
+    # refused assignment to a location attribute (repaired in /repo 17b090d: validate, then store)
+    yield 'objhist', {'spec': _r3_spec(0), 'ctor': 'path', 'final': False,
+                      'ops': [['hdr'], ['loc_attr', 'latitude', 95.0], ['hdr']]}
+    if big:
+        for nm, v in (('longitude', -200.0), ('time_zone', 15), ('latitude', -90.5)):
+            yield 'objhist', {'spec': _r3_spec(0), 'ctor': 'string', 'final': False,
+                              'ops': [['write'], ['loc_attr', nm, v], ['write']]}
+    for j in range(n_hist):
+        yield 'objhist', _gen_objhist(rng, (j + ctx.seed) % 3, rng.randrange(3, 6 if not big else 12))
+    for inp in _PENDING_INPUTS:
+        yield 'order', inp
+
+
+_PENDING_INPUTS = []
+
+
+def _start_orders(ctx):
+    """Launch the process-order interpreters (at most 4) so that they run beside the in-process cases."""
+    del _PENDING_INPUTS[:]
+    big = ctx.searching or not ctx.quick
+    for order in _orders(random.Random(ctx.rng.randrange(10 ** 9)), big):
+        inp = {'order': order}
+        _PENDING_INPUTS.append(inp)
+        _PENDING[json.dumps(inp, sort_keys=True)] = _order_start(inp)
+        ctx.count('order_first:' + order[0][0])
+
+
 replay = check_case
 
 KNOWN_INPUTS = [
@@ -1309,15 +2557,38 @@ def _oracle_cases(ctx):
             yield 'roundtrip', {'spec': s}
     yield 'history', {'spec': {'leap': 'No', 'mode': 'ids', 'seed': 1},
                       'ops': ['H', 'W', 'E', 'M', 'D', 'I', 'W', 'F6', 'B', 'E', 'S', 'W']}
-    yield 'history', {'spec': 'los_angeles_no_leap_field.epw', 'ops': ['H', 'W', 'I', 'B', 'F14', 'W']}
-    for _ in range(3 if not big else 25):
+    if big or ctx.seed % 2:
+        yield 'history', {'spec': 'los_angeles_no_leap_field.epw', 'ops': ['H', 'W', 'I', 'B', 'F14', 'W']}
+    for _ in range((1 - ctx.seed % 2) if not big else 25):
         lp = rng.choice(['No', 'Yes'])
         yield 'history', {'spec': {'leap': lp, 'mode': rng.choice(['ids', 'canon']), 'seed': rng.randrange(1000)},
                           'ops': _rand_hist(rng, 5 if not big else 7)}
 
 
+def _count_hist(ctx, cases):
+    for op, inp in cases:
+        if op == 'objhist':
+            ctx.count('objhist_ctor:' + inp.get('ctor', 'path'))
+            ctx.count('objhist_leap:' + str(inp['spec'].get('leap')))
+            for o in inp['ops']:
+                nm = o[0] + (':' + str(o[2]) if o[0] in ('set_design', 'set_weeks') else ':' + str(o[1]) if o[0] in (
+                    'set_ground', 'loc_attr') else '')
+                ctx.count('objhist_op:' + nm)
+        elif op == 'locdict':
+            a = inp['loc']
+            for k in ('lat', 'lon', 'tz', 'elev'):
+                if not a[k]:
+                    ctx.count('locdict_zero:' + k)
+        yield op, inp
+
+
 def oracle(ctx):
+    _start_orders(ctx)
+    run_oracle_cases(ctx, _count_hist(ctx, _r3_oracle_cases(ctx)), check_case)
     run_oracle_cases(ctx, _oracle_cases(ctx), check_case)
+    for p in list(_PENDING.values()):
+        p.kill()
+    _PENDING.clear()
 
 
 LEVEL_TEXT = ('Machine-checked Lean 4 theorems over an executable model of epw.py: the two rotations are mutually '
@@ -1330,7 +2601,11 @@ LEVEL_TEXT = ('Machine-checked Lean 4 theorems over an executable model of epw.p
               'both key layouts or absent, any number of weeks and ground depths, leap/DST fields, comments) under '
               'exactly stated side conditions, with counterexamples where the format loses information; the stamps of '
               'from_missing_values are the EPW stamps for every row of both years; Wea/MOS lines carry the values of '
-              'the same index; from_dict(to_dict) returns the same data. The field table is regenerated from epw.py on '
+              'the same index; from_dict(to_dict) returns the same data. Object histories: on the state machine of all public '
+              'operations (reads, exports, unit conversions, header-slot setters, value assignment, refused calls) every '
+              'history ends in the loaded state of the object on which only the accepted state changes were performed '
+              '(C01_history_refines_fresh), a call that answers with an error leaves every observation unchanged '
+              '(C01_refused_preserves), reads are pure and commute (C01_read_pure, C01_reads_commute). The field table is regenerated from epw.py on '
               'every run and the model is compared with the real class on shipped and synthetic full-size files, '
               'header blocks and operation histories.')
 LEVEL_NOTE = ('Trusted: Lean kernel; axioms propext/Classical.choice/Quot.sound only; the field-table extractor; the '
